@@ -119,9 +119,11 @@ def lake_build(target, timeout=1500):
 def audit(prop_id, cfg):
     """Step 3: #print axioms on every theorem of Props/<ID>.lean + token grep over
     every hand-written Lean file."""
-    props_path = os.path.join(LEAN, "ToastyVerif", "Props", prop_id + ".lean")
-    thms = theorems_in(props_path)
-    src = f"import ToastyVerif.Props.{prop_id}\n" + "".join(f"#print axioms {t}\n" for t in thms)
+    files = cfg.get("props_files", [prop_id])
+    thms = []
+    for f in files:
+        thms += theorems_in(os.path.join(LEAN, "ToastyVerif", "Props", f + ".lean"))
+    src = "".join(f"import ToastyVerif.Props.{f}\n" for f in files) + "".join(f"#print axioms {t}\n" for t in thms)
     tmp = os.path.join(LEAN, f".audit_{prop_id}.lean")
     with open(tmp, "w") as f:
         f.write(src)
@@ -240,14 +242,20 @@ def _main(argv=None):
                 broken.append(("extraction", gen_info["failed_modules"]))
             elif gen_info["rc"] != 0 or gen_info.get("tables_rc"):
                 broken.append(("extraction", {"error": gen_info.get("tables_err", "extractor crashed")}))
-        ok_build, build_info = lake_build(f"ToastyVerif.Props.{pid}")
+        ok_build, build_info = True, {"wall_s": 0, "errors": [], "tail": ""}
+        for f in cfg.get("props_files", [pid]):
+            okb, bi = lake_build(f"ToastyVerif.Props.{f}")
+            ok_build = ok_build and okb
+            build_info["wall_s"] += bi["wall_s"]
+            build_info["errors"] += bi["errors"]
+            build_info["tail"] += bi["tail"]
         # the driver must be compiled against the Gen definitions of *this* run
         ok_drv, drv_info = lake_build("ToastyVerif.Driver.Ops")
         if not ok_drv and ok_build:
             broken.append(("driver-build", {"errors": drv_info["errors"][:10]}))
         if not ok_build:
             broken.append(("proof", {"errors": build_info["errors"], "tail": build_info["tail"][-1500:]}))
-            audit_info = {"theorems": theorems_in(os.path.join(LEAN, "ToastyVerif", "Props", pid + ".lean")), "axioms": {}}
+            audit_info = {"theorems": [t for f in cfg.get("props_files", [pid]) for t in theorems_in(os.path.join(LEAN, "ToastyVerif", "Props", f + ".lean"))], "axioms": {}}
             ok_audit = False
         else:
             ok_audit, audit_info = audit(pid, cfg)
